@@ -1,7 +1,7 @@
 """Configuration of ./check for property C05 (loaded by tools/props.py)."""
 
 PROP = {'engine': 'srv',
- 'lean_props': ['MuscleModel.Props.C05'],
+ 'lean_props': ['MuscleModel.Props.C05', 'MuscleModel.Props.C05Reach'],
  'harnesses': [{'name': 'srv', 'sources': ['harness/srv.cpp']}],
  'trusted_base': ['hand-written Lean model of the reflector: node tree, path matcher, literal wildcard traversal, notification pipeline, command handlers '
                   '(lean/MuscleModel/Reflector/{Glob,Tree,Traverse,Server,Handlers}.lean, Engines/Srv.lean)',
